@@ -27,20 +27,24 @@ def native_roundtrip(tree_json):
 def run_scenario(chk, pid, scen, params, label, replay, signature):
     res, info = TL.explore_parallel(scen, params, budget=60)
     chk.paths += len(res); chk.queries += info['queries']; chk.note_functions(info['functions']); chk.models |= info['models']
-    name = f'{pid}/E-MIR {label} ({len(res)} paths)'
-    if info['errors']: chk.obligation(name + ' [' + info['errors'][0][:150] + ']', 'E-MIR/fork', 'inconclusive'); return res
-    bad = [r for r in res if r.get('ok') is not True]
-    seen = set()
-    for b in bad[:12]:
-        if b.get('tree') is None:
-            chk.obligation(name + ' [' + str(b.get('panic') or b.get('why'))[:120] + ': no witness]', 'E-MIR/fork', 'inconclusive'); continue
-        key = str(b['tree'])
-        if key in seen: continue
-        seen.add(key); chk.native_replays += 1
-        diffs = replay(b['tree'])
-        if diffs: chk.obligation(name, 'E-MIR/fork', 'violated'); chk.violation(name, signature, {'tree': b['tree'], 'mir': b.get('why'), 'differences': diffs}, '; '.join(diffs)[:500])
-        else: chk.obligation(name + f' (counterexample: {b.get("why")} does not reproduce natively)', 'E-MIR/fork', 'inconclusive')
-    if not bad: chk.obligation(name, 'E-MIR/fork', 'holds', 0.0, len(res) > 1, {'scenario': scen, 'params': params, 'paths': len(res)})
+    name = f'{pid}/E-MIR {label}'
+    if info['errors']: chk.obligation(name + f' ({len(res)} paths) [' + info['errors'][0][:150] + ']', 'E-MIR/fork', 'inconclusive'); return res
+    groups = {}
+    for r in res: groups.setdefault(r.get('group', ''), []).append(r)
+    for g, rs in sorted(groups.items(), key=lambda kv: str(kv[0])):
+        nm = f'{name} [{g}] ({len(rs)} paths)' if g != '' else f'{name} ({len(rs)} paths)'
+        bad = [r for r in rs if r.get('ok') is not True]
+        seen = set()
+        for b in bad[:6]:
+            if b.get('tree') is None:
+                chk.obligation(nm + ' [' + str(b.get('panic') or b.get('why'))[:120] + ': no witness]', 'E-MIR/fork', 'inconclusive'); continue
+            key = str(b['tree'])
+            if key in seen: continue
+            seen.add(key); chk.native_replays += 1
+            diffs = replay(b['tree'])
+            if diffs: chk.obligation(nm, 'E-MIR/fork', 'violated'); chk.violation(nm, signature, {'tree': b['tree'], 'mir': b.get('why'), 'differences': diffs}, '; '.join(diffs)[:500])
+            else: chk.obligation(nm + f' (counterexample: {b.get("why")} does not reproduce natively)', 'E-MIR/fork', 'inconclusive')
+        if not bad: chk.obligation(nm, 'E-MIR/fork', 'holds', 0.0, len(rs) > 1 or len(groups) > 3, {'scenario': scen, 'params': params, 'group': g, 'paths': len(rs)})
     return res
 
 def run(chk):
